@@ -85,6 +85,13 @@ def main():
         obs('err.inters', lambda: d & e)
         obs('err.remove', lambda: d.remove_object('nope'))
         obs('err.rename', lambda: d.rename_property('palpha', 'pbeta'))
+        # queries naming several unknown labels (the KeyError names one of them)
+        cu = C.Context(['a', 'b'], ['x', 'y'], [(1, 0), (0, 1)])
+        obs('err.unknown.intension', lambda: cu.intension(['q1', 'a', 'q2', 'q3']))
+        obs('err.unknown.extension', lambda: cu.extension(['r1', 'r2', 'r3']))
+        obs('err.unknown.getitem', lambda: cu[('zz1', 'zz2', 'zz3')])
+        obs('err.unknown.neighbors', lambda: cu.neighbors(['n1', 'n2', 'n3']))
+        obs('err.unknown.single', lambda: cu.intension(['a', 'nope']))
         obs('err.fromdict.missing', lambda: C.Context.fromdict({'objects': ('a',)}))
         obs('err.fromdict.nonstring', lambda: C.Context.fromdict({'objects': ('a', 1, None), 'properties': ('x',),
                                                                  'context': [(), (), ()]}))
